@@ -8,7 +8,7 @@ input unchanged, no aliasing).  H flavour: validate twice, results equal.
 import itertools
 
 from mc import terms as T, ref, gen
-from mc.alphabet import K
+from mc.alphabet import K, Tok
 from mc.enc import fresh
 from mc.run import Result
 from mc.snapshot import vsnap, aliases
@@ -40,7 +40,8 @@ PATHS8 = [PATHS[i] for i in (1, 3, 4, 8, 9, 12, 13, 14)]
 CONDS = [L("ValueDataType", "equal_to", bool), L("ValueDataType", "equal_to", int), L("Value", "equal_to", 3),
          L("Value", "truthy"), T.NULL]     # (a cast-only rule: the null condition)
 CASTS = [(("str", "bool"),), (("str", "int"),)]
-LEAFS = ["true", "FALSE", "True", "3", "-3", " 3 ", "3.0", "abc", "", 3, True, None, [], {}, "inf", "1e999", "1e3", "nan", "0x10", "1_0"]
+LEAFS = ["true", "FALSE", "True", "3", "-3", " 3 ", "3.0", "abc", "", 3, True, None, [], {}, "inf", "1e999", "1e3", "nan", "0x10", "1_0",
+         Tok("3"), Tok("true"), Tok("x")]      # strings of a sub-type of str are strings
 
 
 def documents():
